@@ -1315,6 +1315,11 @@ package gogu
 
 // ---------------------------------------------------------------- C17: Memoize (relative to the assumed contract of singleflight.Group.Do)
 
+//@ func gogu.NewMemoizer
+//@   property C17
+//@   ensures result != nil && fresh(result) && result.group != nil && result.Cache != nil && result.Cache.cache != nil && result.Cache.items != nil && len(result.Cache.items) == 0
+//@   ensures result.Cache.expTime == expiration && result.Cache.cleanupInt == cleanup
+
 //@ func (gogu.Memoizer).Memoize
 //@   property C17
 //@   calllog impure
